@@ -74,7 +74,7 @@ pub fn scan(b: &[u8]) -> Scan {
                     match ctype {
                         0 | 2 => {
                             s.hints.max_cel_w = s.hints.max_cel_w.max(w);
-                            s.hints.total_declared_pixels += w * h;
+                            s.hints.total_declared_pixels = s.hints.total_declared_pixels.saturating_add(w * h);
                         }
                         3 => {
                             s.hints.max_tilemap_tiles = s.hints.max_tilemap_tiles.max(w * h);
